@@ -36,12 +36,16 @@ def dedupe(jobs):
             seen.add(k); out.append(j)
     return out
 
-def generic(prop, tier, jobs, note, sample_every=25, level='model_checking', extra_cov=None):
+def generic(prop, tier, jobs, note, sample_every=25, level='model_checking', extra_cov=None, deepen=True):
     t0 = time.time()
     jobs = dedupe(jobs)
     # a single program may not hold the tier hostage: it is capped (and reported as capped) after this long
     res, skipped = mcdriver.run_jobs(jobs, wall(tier), per_job_cap_s=(100 if tier == 'quick' else 600), sample_every=sample_every)
-    return mcdriver.finish(prop, tier, level, res, skipped, t0, assumptions=ASSUME_MC, technique_note=note, extra_cov=extra_cov)
+    rounds = None
+    if tier == 'thorough' and not skipped and deepen:
+        bonus, rounds = mcdriver.deepen(res, t0 + wall(tier), {j.key() for j in jobs})
+        res = res + bonus
+    return mcdriver.finish(prop, tier, level, res, skipped, t0, assumptions=ASSUME_MC, technique_note=note, extra_cov=extra_cov, deepening=rounds)
 
 # ---------------------------------------------------------------- C01
 def run_C01(tier):
@@ -94,18 +98,23 @@ def jobs_mu(tier):
 
 def run_C02(tier):
     t0 = time.time()
-    res, skipped = mcdriver.run_jobs(jobs_mu(tier), wall(tier), sample_every=40)
-    return mcdriver.finish('C02', tier, 'model_checking', res, skipped, t0, assumptions=ASSUME_MC,
+    J = jobs_mu(tier)
+    res, skipped = mcdriver.run_jobs(J, wall(tier), per_job_cap_s=(100 if tier == 'quick' else 600), sample_every=40)
+    rounds = None
+    if tier == 'thorough' and not skipped:
+        bonus, rounds = mcdriver.deepen(res, t0 + wall(tier), {j.key() for j in J})
+        res = res + bonus
+    return mcdriver.finish('C02', tier, 'model_checking', res, skipped, t0, assumptions=ASSUME_MC, deepening=rounds,
         technique_note='stateless-by-re-execution DFS over scheduler choices of the real mu.c/common.c/semaphore code with visited-state pruning; oracle: any terminal state with an unfinished thread is a lost wake-up/deadlock; try-locks must not block')
 
 # ---------------------------------------------------------------- C12
 def run_C12(tier):
     t0 = time.time()
-    k = 2 if tier == 'quick' else 3
+    k = 2 if tier == 'quick' else 6      # 6: measured to be saturated (E=5 and E=6 explore the same space for the largest program)
     J = [Job(c, 'sem', p, 99, k) for p in progs.sem_programs(tier == 'thorough') for c in (['c-futex'] if tier == 'quick' else ['c-futex', 'c11-futex', 'cpp-futex'])]
     res, skipped = mcdriver.run_jobs(J, wall(tier), sample_every=10)
     return mcdriver.finish('C12', tier, 'model_checking', res, skipped, t0, assumptions=ASSUME_MC,
-        technique_note='complete interleaving exploration (no preemption bound) of nsync_semaphore_futex.c with one waiter and 1-3 posters, every placement of up to k injected EINTR/EAGAIN/early-ETIMEDOUT returns and clock ticks (k = E budget)')
+        technique_note='complete interleaving exploration (no preemption bound) of nsync_semaphore_futex.c with one waiter and 1-3 posters, every placement of up to k (quick 2, thorough 6 = saturated: no program can consume more) injected EINTR/EAGAIN/early-ETIMEDOUT returns and clock ticks (k = E budget)')
 
 
 # ---------------------------------------------------------------- C03
